@@ -104,25 +104,25 @@ pub fn fmt_structure(tr: u8) {
 }
 
 //@ id=C20 tier=quick to=1200 cfg=std exh=1 stub=1 unwind=8 stubs="<f64 as Display>::fmt -> records value/flags, emits '#'" desc="Display structure for EVERY (hi,lo) bit pattern x {plain, +, .p, +.p} (p <= 20 symbolic): output is '# c #' with c the sign bit of lo; first numeral = hi with the caller's + flag, second = |lo| without sign, both with the caller's precision"
-#[cfg_attr(kani, kani::proof)]
-#[cfg_attr(kani, kani::unwind(8))]
-#[cfg_attr(kani, kani::stub(<f64 as core::fmt::Display>::fmt, f64_display_stub))]
+#[cfg_attr(all(kani, feature = "stubs"), kani::proof)]
+#[cfg_attr(all(kani, feature = "stubs"), kani::unwind(8))]
+#[cfg_attr(all(kani, feature = "stubs"), kani::stub(<f64 as core::fmt::Display>::fmt, f64_display_stub))]
 pub fn c20_display_structure() {
     fmt_structure(0)
 }
 
 //@ id=C20 tier=quick to=1200 cfg=std exh=1 stub=1 unwind=8 stubs="<f64 as LowerExp>::fmt -> records value/flags, emits '#'" desc="LowerExp structure, as c20_display_structure"
-#[cfg_attr(kani, kani::proof)]
-#[cfg_attr(kani, kani::unwind(8))]
-#[cfg_attr(kani, kani::stub(<f64 as core::fmt::LowerExp>::fmt, f64_lowerexp_stub))]
+#[cfg_attr(all(kani, feature = "stubs"), kani::proof)]
+#[cfg_attr(all(kani, feature = "stubs"), kani::unwind(8))]
+#[cfg_attr(all(kani, feature = "stubs"), kani::stub(<f64 as core::fmt::LowerExp>::fmt, f64_lowerexp_stub))]
 pub fn c20_lowerexp_structure() {
     fmt_structure(1)
 }
 
 //@ id=C20 tier=quick to=1200 cfg=std exh=1 stub=1 unwind=8 stubs="<f64 as UpperExp>::fmt -> records value/flags, emits '#'" desc="UpperExp structure, as c20_display_structure"
-#[cfg_attr(kani, kani::proof)]
-#[cfg_attr(kani, kani::unwind(8))]
-#[cfg_attr(kani, kani::stub(<f64 as core::fmt::UpperExp>::fmt, f64_upperexp_stub))]
+#[cfg_attr(all(kani, feature = "stubs"), kani::proof)]
+#[cfg_attr(all(kani, feature = "stubs"), kani::unwind(8))]
+#[cfg_attr(all(kani, feature = "stubs"), kani::stub(<f64 as core::fmt::UpperExp>::fmt, f64_upperexp_stub))]
 pub fn c20_upperexp_structure() {
     fmt_structure(2)
 }
